@@ -1,4 +1,5 @@
 ----------------------------- MODULE MCCluster -----------------------------
 EXTENDS Cluster
 Sym == Permutations(Node)
+SymV == Permutations(Voter)   \* configs with read replicas: only voters are interchangeable
 =============================================================================
